@@ -139,7 +139,13 @@ pub fn readcmp_main(a: &Args) {
         if line.trim().is_empty() {
             continue;
         }
-        let rec: J = serde_json::from_str(&line).expect("bad record");
+        // expected dumps nest two JSON levels per tree level: lift serde_json's depth limit of 128
+        let rec: J = {
+            use serde::Deserialize;
+            let mut de = serde_json::Deserializer::from_str(&line);
+            de.disable_recursion_limit();
+            J::deserialize(&mut de).expect("bad record")
+        };
         let fmt = rec["fmt"].as_str().unwrap_or("bin").to_owned();
         let bytes: Vec<u8> = if let Some(h) = rec["bytes_hex"].as_str() {
             canon::unhex(h)
